@@ -34,27 +34,28 @@ type RemoteSpec struct {
 
 // Config selects the application's behaviour.
 type Config struct {
-	Social           bool     `json:"social"`
-	Federating       bool     `json:"federating"`
-	AuthGetInbox     int      `json:"auth_get_inbox,omitempty"` // 0 ok, 1 deny (app writes 401), 2 error
-	AuthGetOutbox    int      `json:"auth_get_outbox,omitempty"`
-	AuthPostInbox    int      `json:"auth_post_inbox,omitempty"`
-	AuthPostOutbox   int      `json:"auth_post_outbox,omitempty"`
-	Blocked          int      `json:"blocked,omitempty"` // 0 no, 1 yes, 2 error, 3 by set
-	BlockedSet       []string `json:"blocked_set,omitempty"`
-	OnFollow         int      `json:"on_follow,omitempty"`
-	FedWrapped       bool     `json:"fed_wrapped,omitempty"` // application callbacks inside the wrapped struct
-	FedOther         []string `json:"fed_other,omitempty"`   // type keys with an overriding 'other' callback
-	SocWrapped       bool     `json:"soc_wrapped,omitempty"`
-	SocOther         []string `json:"soc_other,omitempty"`
-	MaxDelivery      int      `json:"max_delivery_depth"`
-	MaxForward       int      `json:"max_forward_depth"`
-	Filter           string   `json:"filter,omitempty"` // all | none | first
-	DeliverFails     bool     `json:"deliver_fails,omitempty"`
-	ClockUnix        int64    `json:"clock_unix"`
-	ClockNanos       int      `json:"clock_nanos,omitempty"` // sub-second part of the instant, 0..999999999
-	ClockOffsetMin   int      `json:"clock_offset_min,omitempty"`
-	GetNilForMissing bool     `json:"get_nil_for_missing,omitempty"` // Get returns (nil, nil) for unknown ids
+	Social               bool     `json:"social"`
+	Federating           bool     `json:"federating"`
+	AuthGetInbox         int      `json:"auth_get_inbox,omitempty"` // 0 ok, 1 deny (app writes 401), 2 error
+	AuthGetOutbox        int      `json:"auth_get_outbox,omitempty"`
+	AuthPostInbox        int      `json:"auth_post_inbox,omitempty"`
+	AuthPostOutbox       int      `json:"auth_post_outbox,omitempty"`
+	Blocked              int      `json:"blocked,omitempty"` // 0 no, 1 yes, 2 error, 3 by set
+	BlockedSet           []string `json:"blocked_set,omitempty"`
+	OnFollow             int      `json:"on_follow,omitempty"`
+	FedWrapped           bool     `json:"fed_wrapped,omitempty"` // application callbacks inside the wrapped struct
+	FedOther             []string `json:"fed_other,omitempty"`   // type keys with an overriding 'other' callback
+	SocWrapped           bool     `json:"soc_wrapped,omitempty"`
+	SocOther             []string `json:"soc_other,omitempty"`
+	MaxDelivery          int      `json:"max_delivery_depth"`
+	MaxForward           int      `json:"max_forward_depth"`
+	Filter               string   `json:"filter,omitempty"` // all | none | first
+	DeliverFails         bool     `json:"deliver_fails,omitempty"`
+	ClockUnix            int64    `json:"clock_unix"`
+	ClockNanos           int      `json:"clock_nanos,omitempty"` // sub-second part of the instant, 0..999999999
+	ClockOffsetMin       int      `json:"clock_offset_min,omitempty"`
+	ValuesWithoutContext bool     `json:"values_without_context,omitempty"` // Get returns values without an '@context' member, as a Database does that keeps the values it is handed (those of embedded objects never had one)
+	GetNilForMissing     bool     `json:"get_nil_for_missing,omitempty"`    // Get returns (nil, nil) for unknown ids
 	// StrictNil makes the simulated Database and Transport use the IRIs they
 	// are given the way an ordinary implementation does (id.String()): a nil
 	// IRI handed over by the library then ends in a nil dereference inside
@@ -669,6 +670,13 @@ func (d DB) Get(c context.Context, id *url.URL) (vocab.Type, error) {
 	if err != nil {
 		w.setResult(idx, "", err, "")
 		return nil, err
+	}
+	if w.Cfg.ValuesWithoutContext {
+		if u, ok := t.(interface {
+			GetUnknownProperties() map[string]interface{}
+		}); ok {
+			delete(u.GetUnknownProperties(), "@context")
+		}
 	}
 	w.setResult(idx, t.GetTypeName(), nil, "")
 	return t, nil
